@@ -817,6 +817,22 @@ def _loop_forms(st):
             and all(isinstance(e, ast.Name) for e in st.body[0].targets[0].elts) \
             and not any(_mentions(st.target.id, x) for x in st.body[1:]) and len(st.body) > 1:
         st = ast.For(target=st.body[0].targets[0], iter=st.iter, body=st.body[1:], orelse=[], lineno=getattr(st, "lineno", 0))
+    # for k, v in W(d.items()): B   with v never read   ->   for k in W(d): B      (W: list / reversed / tuple wrappers)
+    fn_ = getattr(n_comp, "_fn", None)
+    if fn_ is not None and isinstance(st.target, ast.Tuple) and len(st.target.elts) == 2 and all(isinstance(e, ast.Name) for e in st.target.elts):
+        vname = st.target.elts[1].id
+        inner = st.iter
+        chain_ = []
+        while isinstance(inner, ast.Call) and isinstance(inner.func, ast.Name) and inner.func.id in ("list", "reversed", "tuple") \
+                and len(inner.args) == 1 and not inner.keywords:
+            chain_.append(inner.func.id)
+            inner = inner.args[0]
+        if isinstance(inner, ast.Call) and isinstance(inner.func, ast.Attribute) and inner.func.attr == "items" and not inner.args and not inner.keywords \
+                and sum(1 for n in ast.walk(fn_) if isinstance(n, ast.Name) and n.id == vname) == 1 and vname != st.target.elts[0].id:
+            new_iter = inner.func.value
+            for w in reversed(chain_):
+                new_iter = ast.Call(func=ast.Name(id=w, ctx=ast.Load()), args=[new_iter], keywords=[])
+            st = ast.For(target=ast.Name(id=st.target.elts[0].id, ctx=ast.Store()), iter=new_iter, body=st.body, orelse=[], lineno=getattr(st, "lineno", 0))
     it = st.iter
     # for x in takewhile(lambda y: P(y), L): B    ->    for x in L: if not P(x): break ; B
     if isinstance(it, ast.Call) and unparse(it.func) in ("takewhile", "itertools.takewhile") and len(it.args) == 2 and isinstance(it.args[0], ast.Lambda) \
@@ -1047,6 +1063,17 @@ def _known_membership(block):
     return block
 
 
+def _negative_test(t):
+    if isinstance(t, ast.UnaryOp) and isinstance(t.op, ast.Not):
+        return True
+    if isinstance(t, ast.Compare) and len(t.ops) == 1:
+        if isinstance(t.ops[0], (ast.NotIn, ast.IsNot, ast.NotEq)):
+            return True
+        return isinstance(t.ops[0], (ast.Lt, ast.LtE)) and (_is_number(t.left) or _is_number(t.comparators[0]))
+    # not a or not b  ==  not (a and b)
+    return isinstance(t, ast.BoolOp) and isinstance(t.op, ast.Or) and all(_negative_test(v) for v in t.values)
+
+
 def _is_bool(e):
     if isinstance(e, ast.Compare):
         return True
@@ -1059,6 +1086,22 @@ def _is_bool(e):
 
 def n_flow(block, owner, field):
     block = _known_membership(block)
+    # try: B except E: H(ends with a jump) else: R   ->   try: B except E: H ; R     (R runs exactly when B completes; what R
+    # raises is not caught by the handlers either way)
+    pre = []
+    for k_, st in enumerate(block):
+        if isinstance(st, ast.Try) and st.orelse and not st.finalbody and st.handlers and k_ == len(block) - 1 and field == "body" \
+                and isinstance(owner, (ast.For, ast.While)):
+            # the last statement of a loop body: a handler that falls through continues the loop
+            for h in st.handlers:
+                if not ends_with_jump(h.body):
+                    h.body = list(h.body) + [ast.Continue()]
+        if isinstance(st, ast.Try) and st.orelse and not st.finalbody and st.handlers and all(ends_with_jump(h.body) for h in st.handlers):
+            pre.append(ast.Try(body=st.body, handlers=st.handlers, orelse=[], finalbody=[], lineno=getattr(st, "lineno", 0)))
+            pre.extend(st.orelse)
+        else:
+            pre.append(st)
+    block = pre
     # `x = A` ; `if not x: x = B`  ->  `x = A or B`
     pre = []
     for st in block:
@@ -1100,10 +1143,7 @@ def n_flow(block, owner, field):
     # `if a not in b: A else: B`  ->  `if a in b: B else: A`     (positive test first; neither branch is a guard)
     pre = []
     for st in block:
-        if isinstance(st, ast.If) and st.orelse and not ends_with_jump(st.body) and not ends_with_jump(st.orelse) and (
-                (isinstance(st.test, ast.UnaryOp) and isinstance(st.test.op, ast.Not)) or (
-                    isinstance(st.test, ast.Compare) and len(st.test.ops) == 1 and (isinstance(st.test.ops[0], (ast.NotIn, ast.IsNot, ast.NotEq)) or (
-                        isinstance(st.test.ops[0], (ast.Lt, ast.LtE)) and (_is_number(st.test.left) or _is_number(st.test.comparators[0])))))):
+        if isinstance(st, ast.If) and st.orelse and not ends_with_jump(st.body) and not ends_with_jump(st.orelse) and _negative_test(st.test):
             st = ast.If(test=negate(st.test), body=st.orelse, orelse=st.body, lineno=getattr(st, "lineno", 0))
         pre.append(st)
     block = pre
